@@ -90,6 +90,7 @@ type Node struct {
 	Mandatory *bool
 	Key       string
 	Min, Max  *uint64
+	OrdUser   bool   // ordered-by user (lists and leaf-lists)
 	Body      *Scope // children (and local typedefs/groupings)
 	Input     *Node
 	Output    *Node
@@ -323,6 +324,9 @@ func (p *printer) node(n *Node) {
 	}
 	if n.Max != nil {
 		p.line("max-elements %d;", *n.Max)
+	}
+	if n.OrdUser {
+		p.line("ordered-by user;")
 	}
 	if n.Input != nil {
 		p.line("input {")
